@@ -111,6 +111,17 @@ def _real_sites(d):
                 for t in d['dts']:
                     if t['id'] != a['kind'][1] and E.py_base_type_name(d, t['id']):
                         yield [['retype', c['id'], a['id'], t['id']]]
+            elif a['kind'][0] == 'ref':
+                # the own R114 type of a referential attribute (each type of the model): the declaration must not move,
+                # neither now nor after the referred base attribute is retyped
+                for t in d['dts']:
+                    yield [['retype', c['id'], a['id'], t['id']]]
+                base = E._find(d['classes'], 'id', a['kind'][1])
+                ba = E._find(base['attrs'], 'id', a['kind'][2]) if base else None
+                if ba is not None and ba['kind'][0] == 'base' and E.py_base_type_name(d, ba['kind'][1]):
+                    for t in d['dts']:
+                        if t['id'] != ba['kind'][1] and E.py_base_type_name(d, t['id']):
+                            yield [['retype', c['id'], a['id'], ba['kind'][1]], ['retype', base['id'], ba['id'], t['id']]]
         for t in d['dts']:
             yield [['add-attr', c['id'], {'id': _fresh_id(), 'name': 'Added_Attr', 'kind': ['base', t['id']]}]]
         yield [['add-attr', c['id'], {'id': _fresh_id(), 'name': 'Added_Derived',
@@ -241,6 +252,9 @@ def generate(ctx):
     for i in range(n):
         r = rng.fork('synth', i)
         d = E.gen_diagram(r, max_classes=ctx.pick(5, 7), special_names=(i % 2 == 0), empty_enum=True)
+        if i % 3 == 0:
+            # referential attributes with a data type of their own across R114 (not same_as<Base_Attribute>)
+            d['ref_types'] = r.randint(1, 1 << 30)
         if i % 4 in (1, 2):
             # NON-EMPTY descriptions on every element kind (with --, <, &, quotes, newlines): no part of what is mirrored
             d['descr'] = r.randint(1, 1 << 30)
